@@ -115,24 +115,23 @@ impl<T: HS> Out<T> {
     pub fn new() -> Self {
         Out { obligations: vec![], facts: vec![], assumes: vec![], notes: vec![], _p: Default::default() }
     }
+    /// the obligation group with this name (created on first use; groups are merged by name)
     pub fn obl(&mut self, name: &str) -> &mut Obl {
+        if let Some(i) = self.obligations.iter().position(|o| o.name == name) {
+            return &mut self.obligations[i];
+        }
         self.obligations.push(Obl { name: name.to_string(), eqs: vec![], given: vec![] });
         self.obligations.last_mut().unwrap()
     }
     pub fn eq(&mut self, name: &str, label: String, lhs: T, rhs: T) {
-        if self.obligations.last().map(|o| o.name != name).unwrap_or(true) {
-            self.obl(name);
-        }
         if lhs.garbage() || rhs.garbage() {
             self.fact(&format!("{name}:no-garbage"), false, format!("{label}: uninitialised element"));
         }
-        self.obligations.last_mut().unwrap().eqs.push((label, lhs.repr(), rhs.repr()));
+        let (l, r) = (lhs.repr(), rhs.repr());
+        self.obl(name).eqs.push((label, l, r));
     }
     pub fn obligations_push_raw(&mut self, name: &str, label: String, lhs: String, rhs: String) {
-        if self.obligations.last().map(|o| o.name != name).unwrap_or(true) {
-            self.obl(name);
-        }
-        self.obligations.last_mut().unwrap().eqs.push((label, lhs, rhs));
+        self.obl(name).eqs.push((label, lhs, rhs));
     }
     pub fn eq_mat(&mut self, name: &str, what: &str, lhs: &DMatrix<T>, rhs: &DMatrix<T>) {
         if lhs.shape() != rhs.shape() {
@@ -147,10 +146,11 @@ impl<T: HS> Out<T> {
     }
     /// an assumption local to the obligation group `name` (which must be the group currently being filled)
     pub fn given(&mut self, name: &str, lhs: T, op: &str, rhs: T) {
-        if self.obligations.last().map(|o| o.name != name).unwrap_or(true) {
-            self.obl(name);
+        let g = (lhs.repr(), op.to_string(), rhs.repr());
+        let o = self.obl(name);
+        if !o.given.contains(&g) {
+            o.given.push(g);
         }
-        self.obligations.last_mut().unwrap().given.push((lhs.repr(), op.to_string(), rhs.repr()));
     }
     pub fn fact(&mut self, name: &str, holds: bool, detail: String) {
         self.facts.push((name.to_string(), holds, detail));
